@@ -60,6 +60,15 @@ def run_one(mod, case, limit):
     res["idx"] = case["idx"]
     res["wall"] = round(time.time() - t0, 3)
     res["reached"] = reach.drain()
+    try:
+        from .obs import contracts
+        cv, cc = contracts.drain()
+        for k, v in cc.items():
+            res["counters"]["contract:" + k] = v
+        if cv and res.get("status") not in ("discarded",):
+            res["violations"] = list(res["violations"]) + cv
+    except Exception:
+        pass
     return res
 
 
@@ -76,8 +85,10 @@ def main(argv):
     out = open(outfile, "a")
     with bootstrap.quiet(log):
         bootstrap.import_rockit()
-        from .obs import reach
+        from .obs import reach, contracts
         reach.install()
+        if os.environ.get("RV_CONTRACTS", "1") != "0":
+            contracts.install()
         mod = load_prop(pid)
         if hasattr(mod, "worker_init"):
             mod.worker_init()
